@@ -10,6 +10,7 @@ From CK Require Import Exec.
 From CK Require Import Ops.
 From CK Require Import Struct.
 From CK Require Import OpsProps.
+From CK Require Import DiffStruct.
 Close Scope Qc_scope. Close Scope Q_scope. Close Scope Z_scope. Open Scope nat_scope.
 
 (* integrate refuses (structural-property error) every circuit that is not smooth and decomposable *)
@@ -117,3 +118,31 @@ Theorem C09_conjugate_result_compat :
          (forall b : circuit, compatible b c' = compatible b c).
 Proof. exact conjugate_structure_more. Qed.
 Print Assumptions C09_conjugate_result_compat.
+
+(* whenever differentiate_m returns (operand well-formed), the result is smooth and decomposable, has exactly the scope of the operand, one output per (output, variable of its scope) plus the copy, all outputs valid nodes, and every node refers to earlier nodes *)
+Theorem C09_differentiate_result :
+  forall (k : nat) (c c' : circuit),
+         wf c = true ->
+         differentiate_m k c = Ok c' ->
+         is_smooth c' = true /\
+         is_decomposable c' = true /\
+         cscope c' = cscope c /\
+         length (outs c') = list_sum (map (fun o : nat => length (nth o (scopes c) []) + 1) (outs c)) /\
+         (forall o : nat, In o (outs c') -> o < length (nodes c')) /\ wsc c'.
+Proof. exact differentiate_structure_eq. Qed.
+Print Assumptions C09_differentiate_result.
+
+(* the outputs split into one block per output o of the operand, of length |scope(o)|+1, every element having the scope of o *)
+Theorem C09_differentiate_output_blocks :
+  forall (k : nat) (c c' : circuit),
+         wf c = true ->
+         differentiate_m k c = Ok c' ->
+         exists blocks : list (list nat),
+           outs c' = concat blocks /\
+           Forall2
+             (fun (o : nat) (b : list nat) =>
+              length b = length (nth o (scopes c) []) + 1 /\
+              (forall x : nat, In x b -> nth x (scopes c') [] = nth o (scopes c) [])) 
+             (outs c) blocks.
+Proof. exact differentiate_output_scopes. Qed.
+Print Assumptions C09_differentiate_output_blocks.
